@@ -140,6 +140,71 @@ def doNd (l : Line) : Option String := do
       some s!"ok r={dump (laplacian den (tbl .forward p) (tbl .backward p) shape ndim c dx (arrs.getD 0 (fun _ => 0)))}"
   | _ => none
 
+/-! any ndim (round 4): the `…N` definitions of the model on multi-indices `Nat → Nat` -/
+
+def idxOf (l : List Nat) : IdxN := fun i => l.getD i 0
+
+/-- all multi-indices of the box, C order -/
+def boxN (shape : Nat → Nat) (ndim : Nat) : List (List Nat) :=
+  (List.range ndim).foldl
+    (fun acc a => acc.flatMap fun pre => (List.range (shape a)).map fun k => pre ++ [k]) [[]]
+
+def unflatN (shape : Nat → Nat) (ndim : Nat) (a : Array CRat) : IdxN → CRat :=
+  fun x => a.getD ((List.range ndim).foldl (fun acc i => acc * shape i + x i) 0) 0
+
+/-- `ndn op=pd|grad|div|lap method= pad= ndim= shape=… axis= dx=… c= f=…`: as `nd`, but for any
+`ndim ≥ 1` (≤ 8 here) and executed with `fdAxisN / gradientN / divergenceN / laplacianN`. -/
+def doNdN (l : Line) : Option String := do
+  let op ← l.get? "op"
+  let p ← pad? l "pad"
+  let ndim ← l.nat? "ndim"
+  let sh ← l.nats? "shape"
+  let dxs ← l.crats? "dx"
+  let c ← l.crat? "c"
+  let parts ← l.get? "f" >>= parseParts
+  if ndim = 0 || ndim > 8 || sh.length ≠ ndim || dxs.length ≠ ndim then none
+  if dxs.any badDx then none
+  let shape : Nat → Nat := fun a => if a < ndim then sh.getD a 1 else 1
+  let dx : Nat → CRat := fun a => dxs.getD a 1
+  let size := (List.range ndim).foldl (fun acc a => acc * shape a) 1
+  if parts.any (·.length ≠ size) then none
+  let arrs := parts.map (fun p => unflatN shape ndim p.toArray)
+  let pts := (boxN shape ndim).map idxOf
+  let dump (g : IdxN → CRat) := showCList (pts.map g)
+  let axesErr (m : Method) (axes : List Nat) : Option Err :=
+    axes.findSome? (fun a => check m p (shape a))
+  match op with
+  | "pd" =>
+    let m ← method? l "method"
+    let a ← l.nat? "axis"
+    if a ≥ ndim || arrs.length ≠ 1 then none
+    match axesErr m [a] with
+    | some e => some (errStr e)
+    | none => some s!"ok r={dump (fdAxisN den (tbl m p) shape a c (dx a) (arrs.getD 0 (fun _ => 0)))}"
+  | "grad" =>
+    let m ← method? l "method"
+    if arrs.length ≠ 1 then none
+    match axesErr m (List.range ndim) with
+    | some e => some (errStr e)
+    | none =>
+      let g := gradientN den (tbl m p) shape c dx (arrs.getD 0 (fun _ => 0))
+      some s!"ok r={";".intercalate ((List.range ndim).map (fun a => dump (g a)))}"
+  | "div" =>
+    let m ← method? l "method"
+    if arrs.length ≠ ndim then none
+    match axesErr m (List.range ndim) with
+    | some e => some (errStr e)
+    | none =>
+      some s!"ok r={dump (divergenceN den (tbl m p) shape ndim c dx (fun a => arrs.getD a (fun _ => 0)))}"
+  | "lap" =>
+    if arrs.length ≠ 1 then none
+    if Gen.FiniteDiff.lapRejected.contains p then some "err:value" else
+    match (axesErr .forward (List.range ndim)).orElse (fun _ => axesErr .backward (List.range ndim)) with
+    | some e => some (errStr e)
+    | none =>
+      some s!"ok r={dump (laplacianN den (tbl .forward p) (tbl .backward p) shape ndim c dx (arrs.getD 0 (fun _ => 0)))}"
+  | _ => none
+
 def kindOf : String → Option Kind
   | "pd" => some .pd | "grad" => some .grad | "div" => some .div | "lap" => some .lap | _ => none
 def kindStr : Kind → String
@@ -183,6 +248,7 @@ def handle (l : Line) : Option String :=
   | "fd" => doFd l
   | "mat" => doMat l
   | "nd" => doNd l
+  | "ndn" => doNdN l
   | "tables" => doTables l
   | "cfg" => doCfg l
   | _ => none
